@@ -13,6 +13,10 @@ From AV Require Import Base.Prelude Base.NatSet.
 From AV Require Model.Seq Model.L1D Proofs.SeqProofs Proofs.BookkeepingProofs.
 From AV Require Model.AvgNum Model.Avg Proofs.AvgProofs Proofs.BookkeepingAvg.
 From AV Require Model.Avg1D Model.Avg1DPend Proofs.BookkeepingAvg1D.
+From AV Require Model.GenericLearner Model.DataSaver Model.Balancing Proofs.BalancingCoh.
+From AV Require Proofs.BookkeepingDataSaver Proofs.BookkeepingBalancing.
+From AV Require Model.Integrator Proofs.IntegratorProofs Proofs.BookkeepingIntegrator.
+From AV Require Model.Tri Model.LND Proofs.BookkeepingLND.
 Import BookkeepingProofs.
 
 Section C09_seq.
@@ -130,6 +134,190 @@ Section C09_avg1d.
   Proof. exact (@BookkeepingAvg1D.a1d_ask_commit N tppf). Qed.
 End C09_avg1d.
 
+(* ---------------------------------------------------------------------- *)
+(* DataSaver (Model/DataSaver.v, tied to the real class by C18's
+   correspondence) over an ARBITRARY wrapped learner [L]: C09 of the wrapper
+   from C09 of the child at the child's current state. *)
+Section C09_ds.
+  Variable L : GenericLearner.Learner.
+  Variable R : Type.
+  Variable pick : R -> GenericLearner.value L.
+  Notation dst := (DataSaver.dst L R).
+
+  Theorem C09_ds_noop : forall (s : dst) n,
+    snd (GenericLearner.ask L (DataSaver.child s) n false) = DataSaver.child s ->
+    snd (DataSaver.ask s n false) = s /\
+    fst (DataSaver.ask s n false) = fst (GenericLearner.ask L (DataSaver.child s) n false) /\
+    (forall h, DataSaver.run pick (snd (DataSaver.ask s n false)) h = DataSaver.run pick s h) /\
+    (forall real, DataSaver.loss (snd (DataSaver.ask s n false)) real = DataSaver.loss s real) /\
+    fst (DataSaver.ask (snd (DataSaver.ask s n false)) n false) = fst (DataSaver.ask s n false).
+  Proof. exact (@BookkeepingDataSaver.ds_ask_noop L R pick). Qed.
+
+  Theorem C09_ds_commit : forall (s : dst) n,
+    fst (GenericLearner.ask L (DataSaver.child s) n true) = fst (GenericLearner.ask L (DataSaver.child s) n false) ->
+    snd (GenericLearner.ask L (DataSaver.child s) n true) =
+      fold_left (GenericLearner.tell_pending L) (fst (fst (GenericLearner.ask L (DataSaver.child s) n false)))
+                (snd (GenericLearner.ask L (DataSaver.child s) n false)) ->
+    fst (DataSaver.ask s n true) = fst (DataSaver.ask s n false) /\
+    snd (DataSaver.ask s n true) =
+      fold_left (@DataSaver.tell_pending L R) (fst (fst (DataSaver.ask s n false))) (snd (DataSaver.ask s n false)).
+  Proof. exact (@BookkeepingDataSaver.ds_ask_commit L R). Qed.
+End C09_ds.
+
+(* ---------------------------------------------------------------------- *)
+(* BalancingLearner (Model/Balancing.v, tied by C15's correspondence) over
+   arbitrary children.  [bask_nc] is the model of the restore-based
+   non-committing ask of the code since /repo commit 5fc0973 (children deep-
+   copied and put back, the three caches and the cycle position put back): it
+   returns the answer of the committing computation and the state it was
+   given -- C09_bal_noop is true BY CONSTRUCTION of that definition and says
+   nothing about the completeness of the real restore (twin oracle).
+   C09_bal_commit_partial has content: given the children's own C09 for one
+   point and idempotent tell_pending, ask(n, True) leaves every child -- hence
+   data, pending points, npoints and, on cache-coherent states of the repaired
+   model, both losses -- exactly as ask(n, False) + tell_pending(each) does.
+   _partial: the wrapper's private caches and the 'cycle' position differ, so
+   equality of later answers is not claimed. *)
+Section C09_bal.
+  Variable L : GenericLearner.Learner.
+  Notation bst := (Balancing.bst L).
+  Notation bask_nc := (BookkeepingBalancing.bask_nc L).
+  Notation mark_all := (BookkeepingBalancing.mark_all L).
+
+  Theorem C09_bal_noop : forall rep (s : bst) n,
+    fst (bask_nc rep s n) = s /\
+    (forall h, Balancing.run rep (fst (bask_nc rep s n)) h = Balancing.run rep s h) /\
+    snd (bask_nc rep (fst (bask_nc rep s n)) n) = snd (bask_nc rep s n) /\
+    snd (bask_nc rep s n) = snd (Balancing.bask rep s n true).
+  Proof. exact (@BookkeepingBalancing.bal_ask_noop L). Qed.
+
+  Hypothesis child_ask_pure : forall k : GenericLearner.state L, snd (GenericLearner.ask L k 1 false) = k.
+  Hypothesis child_commit : forall k : GenericLearner.state L,
+    fst (GenericLearner.ask L k 1 true) = fst (GenericLearner.ask L k 1 false) /\
+    snd (GenericLearner.ask L k 1 true) = match fst (fst (GenericLearner.ask L k 1 false)) with
+                                          | p :: _ => GenericLearner.tell_pending L k p
+                                          | [] => k
+                                          end.
+  Hypothesis child_tell_pending_idem : forall (k : GenericLearner.state L) p,
+    GenericLearner.tell_pending L (GenericLearner.tell_pending L k p) p = GenericLearner.tell_pending L k p.
+
+  Theorem C09_bal_commit_partial : forall rep (s : bst) n,
+    Balancing.failed (fst (Balancing.bask rep s n true)) = false ->
+    let a := fst (Balancing.bask rep s n true) in
+    let b := mark_all rep (snd (bask_nc rep s n)) (fst (bask_nc rep s n)) in
+    snd (Balancing.bask rep s n true) = snd (bask_nc rep s n) /\
+    Balancing.kids a = Balancing.kids b /\
+    Balancing.bdata a = Balancing.bdata b /\ Balancing.bpending a = Balancing.bpending b /\
+    Balancing.bnpoints a = Balancing.bnpoints b.
+  Proof.
+    intros rep s n Hf.
+    destruct (BookkeepingBalancing.bal_ask_commit_kids L child_ask_pure child_commit child_tell_pending_idem rep s n Hf) as [H1 H2].
+    destruct (BookkeepingBalancing.bal_ask_commit_observables L child_ask_pure child_commit child_tell_pending_idem rep s n Hf) as [H3 [H4 H5]].
+    cbv zeta. auto.
+  Qed.
+
+  Theorem C09_bal_commit_losses_partial : forall (s : bst) n real,
+    BalancingCoh.Coh s -> Balancing.failed (fst (Balancing.bask true s n true)) = false ->
+    snd (Balancing.bloss (fst (Balancing.bask true s n true)) real) =
+    snd (Balancing.bloss (mark_all true (snd (bask_nc true s n)) (fst (bask_nc true s n))) real).
+  Proof. exact (BookkeepingBalancing.bal_ask_commit_losses L child_ask_pure child_commit child_tell_pending_idem). Qed.
+End C09_bal.
+
+(* the hypotheses on the children are satisfiable (toy learner of Model/GenericLearner.v) *)
+Theorem C09_bal_child_hyps_inhabited :
+  (forall k : GenericLearner.state GenericLearner.Toy.learner,
+     snd (GenericLearner.ask GenericLearner.Toy.learner k 1 false) = k) /\
+  (forall k : GenericLearner.state GenericLearner.Toy.learner,
+     fst (GenericLearner.ask GenericLearner.Toy.learner k 1 true) = fst (GenericLearner.ask GenericLearner.Toy.learner k 1 false) /\
+     snd (GenericLearner.ask GenericLearner.Toy.learner k 1 true) =
+       match fst (fst (GenericLearner.ask GenericLearner.Toy.learner k 1 false)) with
+       | p :: _ => GenericLearner.tell_pending GenericLearner.Toy.learner k p
+       | [] => k
+       end) /\
+  (forall (k : GenericLearner.state GenericLearner.Toy.learner) (p : GenericLearner.point GenericLearner.Toy.learner),
+     GenericLearner.tell_pending GenericLearner.Toy.learner (GenericLearner.tell_pending GenericLearner.Toy.learner k p) p =
+     GenericLearner.tell_pending GenericLearner.Toy.learner k p).
+Proof. exact BookkeepingBalancing.toy_child_hyps. Qed.
+
+(* ---------------------------------------------------------------------- *)
+(* IntegratorLearner (Model/Integrator.v: the bookkeeping; numerics are answers
+   of the environment; tied to the real class by C07's correspondence and, for
+   non-committing asks, by this check's own).  [ask_nc] is the model of
+   "with restore(self): return self._ask_and_tell_pending(n)" (code since /repo
+   commit 5fc0973): the output of the committing ask, the state handed back.
+   C09_int_noop is true BY CONSTRUCTION of that definition: it does not say the
+   real snapshot is complete, and nothing about summation order (C09:F28).
+   The integrator has no tell_pending(point): the commit clause reads "the
+   returned points are new and pending (until told)". *)
+Section C09_int.
+  Variable X : Type.
+  Variable eqb : X -> X -> bool.
+  Variable points : X -> X -> nat -> list X.
+  Variable repaired : bool.
+  Variable dflt : X.
+  Hypothesis eqb_spec : forall x y, eqb x y = true <-> x = y.
+  Notation step := (Integrator.step eqb points repaired dflt).
+  Notation run := (Integrator.run eqb points repaired dflt).
+  Notation init := (Integrator.init eqb points repaired dflt).
+  Notation ask_nc := (BookkeepingIntegrator.ask_nc X eqb points repaired dflt).
+
+  Theorem C09_int_noop : forall (s : Integrator.st X) n cs,
+    fst (ask_nc s n cs) = s /\
+    (forall h, run (fst (ask_nc s n cs)) h = run s h) /\
+    snd (ask_nc (fst (ask_nc s n cs)) n cs) = snd (ask_nc s n cs) /\
+    snd (ask_nc s n cs) = snd (step s (Integrator.Ask n cs)).
+  Proof. exact (@BookkeepingIntegrator.int_ask_noop X eqb points repaired dflt). Qed.
+
+  (* every history, every oracle answer: a point returned by a committing ask was
+     never handed out before and, unless its value arrived while it was still
+     queued, is pending afterwards *)
+  Theorem C09_int_commit_partial : forall lo hi maxiv (h : list (Integrator.op X)) n cs x,
+    let s := run (init lo hi maxiv) h in
+    In x (fst (snd (step s (Integrator.Ask n cs)))) ->
+    ~ In x (Integrator.handed (Integrator.outs eqb points repaired dflt (init lo hi maxiv) h)) /\
+    (~ In x (BookkeepingIntegrator.tolds X h) -> In x (Integrator.pending (fst (step s (Integrator.Ask n cs))))).
+  Proof. exact (@BookkeepingIntegrator.int_ask_commit X eqb points repaired dflt eqb_spec). Qed.
+End C09_int.
+
+(* ---------------------------------------------------------------------- *)
+(* LearnerND (Model/LND.v over Model/Tri.v: bookkeeping with every geometric
+   and numeric decision an oracle answer of the operation; tied to the real
+   class by C04's correspondence).  [ask_nc] models "with restore(self):
+   return self._ask_and_tell_pending(n)": C09_lnd_noop is true BY CONSTRUCTION
+   of that definition (the real snapshot is examined by the twin oracle).
+   C09_lnd_commit_partial: data and the pending SET after ask(n, True) equal
+   those after ask(n, False) + tell_pending(each), for returned points inside
+   the bounds.  Not claimed (and false of the code, finding C09:F29): equality
+   of the simplex queue / of later answers -- the committing ask consumes
+   queue entries that the other path leaves behind as outdated entries. *)
+Section C09_lnd.
+  Variable L : Type.
+  Variables (lmul ldiv : L -> L -> L) (labs : L -> L) (linf : L).
+  Variable rnd : L -> Z.
+  Variable d : nat.
+  Variable corners : list nat.
+  Variables repaired fix12 : bool.
+  Notation step := (LND.step lmul ldiv labs linf rnd d corners repaired fix12).
+  Notation run := (LND.run lmul ldiv labs linf rnd d corners repaired fix12).
+  Notation ask_nc := (BookkeepingLND.ask_nc L lmul ldiv labs linf rnd d corners repaired fix12).
+
+  Theorem C09_lnd_noop : forall (s : LND.lnd L) n E,
+    fst (ask_nc s n E) = s /\
+    (forall h, run (fst (ask_nc s n E)) h = run s h) /\
+    snd (ask_nc (fst (ask_nc s n E)) n E) = snd (ask_nc s n E) /\
+    snd (ask_nc s n E) = snd (step s (LND.Ask n E)).
+  Proof. exact (BookkeepingLND.lnd_ask_noop L lmul ldiv labs linf rnd d corners repaired fix12). Qed.
+
+  Theorem C09_lnd_commit_partial : forall (s : LND.lnd L) n E s' pts (pes : list (nat * LND.env L)),
+    step s (LND.Ask n E) = (s', LND.ORet pts) -> map fst pes = map fst pts ->
+    (forall x, In x (map fst pts) -> LND.e_inb E x = true) ->
+    (forall x E', In (x, E') pes -> LND.e_inb E' x = true) ->
+    snd (ask_nc s n E) = LND.ORet pts /\
+    LND.l_data s' = LND.l_data (run (fst (ask_nc s n E)) (BookkeepingLND.mark_ops L pes)) /\
+    (forall x, In x (LND.l_pend s') <-> In x (LND.l_pend (run (fst (ask_nc s n E)) (BookkeepingLND.mark_ops L pes)))).
+  Proof. exact (BookkeepingLND.lnd_ask_commit_dp_partial L lmul ldiv labs linf rnd (fun _ _ => true) d corners repaired fix12). Qed.
+End C09_lnd.
+
 (* non-vacuity: a sequence learner with a pending point and one result;
    a non-committing ask returns indices and changes nothing, the committing
    one returns the same indices and marks them pending *)
@@ -155,6 +343,32 @@ Example C09_example_avg :
   Avg.pend (fst (Avg.ask c s 2 true [4; 2])) = [1; 2; 4].
 Proof. vm_compute. repeat split. Qed.
 
+(* non-vacuity (Balancing over two toy children, 'npoints' strategy, repaired
+   model): after a committing ask and a tell, ask(3, True) and ask(3, False) +
+   tell_pending(each) give the same answer and the same children *)
+Example C09_example_bal :
+  let TL := GenericLearner.Toy.learner in
+  let s := Balancing.run true (Balancing.init TL [GenericLearner.Toy.init; GenericLearner.Toy.init] Balancing.SNpoints)
+             [Balancing.Ask 2 true; @Balancing.Tell TL 0 0 7] in
+  let a := fst (Balancing.bask true s 3 true) in
+  let b := BookkeepingBalancing.mark_all TL true (snd (BookkeepingBalancing.bask_nc TL true s 3))
+                                         (fst (BookkeepingBalancing.bask_nc TL true s 3)) in
+  Balancing.failed a = false /\ map fst (snd (Balancing.bask true s 3 true)) = [(0, 1); (1, 1); (0, 2)] /\
+  Balancing.bpending a = [(0, 1); (0, 2); (1, 0); (1, 1)] /\ Balancing.bpending b = Balancing.bpending a.
+Proof. vm_compute. repeat split. Qed.
+
+(* non-vacuity (Integrator over naturals): ask(3) hands out the first three
+   queued abscissae, which are pending; the non-committing variant gives the
+   same answer *)
+Example C09_example_int :
+  let stp := Integrator.step Nat.eqb BookkeepingIntegrator.ex_pts true 0 in
+  let s0 := Integrator.init Nat.eqb BookkeepingIntegrator.ex_pts true 0 0 4096 1000 in
+  snd (stp s0 (Integrator.Ask 3 [])) = ([0; 256; 512], Integrator.ENone) /\
+  snd (BookkeepingIntegrator.ask_nc nat Nat.eqb BookkeepingIntegrator.ex_pts true 0 s0 3 []) = ([0; 256; 512], Integrator.ENone) /\
+  Integrator.stack (fst (stp s0 (Integrator.Ask 3 []))) = skipn 3 (Integrator.stack s0) /\
+  firstn 3 (Integrator.pending (fst (stp s0 (Integrator.Ask 3 [])))) = [0; 256; 512].
+Proof. vm_compute. repeat split. Qed.
+
 Print Assumptions C09_seq_noop.
 Print Assumptions C09_seq_commit.
 Print Assumptions C09_l1d_noop.
@@ -163,3 +377,13 @@ Print Assumptions C09_avg_noop.
 Print Assumptions C09_avg_commit.
 Print Assumptions C09_avg1d_noop_partial.
 Print Assumptions C09_avg1d_commit_partial.
+Print Assumptions C09_ds_noop.
+Print Assumptions C09_ds_commit.
+Print Assumptions C09_bal_noop.
+Print Assumptions C09_bal_commit_partial.
+Print Assumptions C09_bal_commit_losses_partial.
+Print Assumptions C09_bal_child_hyps_inhabited.
+Print Assumptions C09_int_noop.
+Print Assumptions C09_int_commit_partial.
+Print Assumptions C09_lnd_noop.
+Print Assumptions C09_lnd_commit_partial.
